@@ -94,6 +94,10 @@ impl RestorerJob {
                             ),
                         );
                     }
+                    if !matches!(job_task.state, JobTaskState::Waiting) {
+                        // Already processed with one of the previous submits of the job
+                        continue;
+                    }
                     match &task.state {
                         JobTaskState::Waiting | JobTaskState::Running { .. } => continue,
                         JobTaskState::Finished { .. } => job.counters.n_finished_tasks += 1,
